@@ -15,7 +15,7 @@ n = len(metas)
 missed = sum(1 for d in metas if d.get("history", "").startswith("missed"))
 text = """### 0.7 Seeded changes written by fresh sub-agents
 
-In five rounds, twenty sub-agents per round (one per property) were each given **only the text of their property** and a scratch git worktree
+In six rounds, twenty sub-agents per round (one per property) were each given **only the text of their property** and a scratch git worktree
 of `/repo` under `/tmp`, and asked for two realistic changes that break the property, still compile, keep the pinned test suite green, and
 need something specific to manifest, each with a demonstration script (the second round asked to look beyond the most obvious edit sites; the
 third asked that at least one of the two changes *adds* code - a fast path, a cache, a de-duplication step, a changed data structure, a change in
@@ -25,16 +25,22 @@ in one arm, the wrong one of two similar locals, `any` for `all`) and one *restr
 the fifth, after collections had been brought to comprehension form (rules/comp.py), asked for one restructuring of code that *builds, filters,
 groups or walks a collection* (loop <-> iterator chain, `filter` + `map` -> `filter_map`, `entry()` API, a moved early exit, fused or split loops)
 and one small slip *outside* the obvious functions - in a helper, a collector, a `From` / `TryFrom` / `Display` impl, a constructor, a closure
-parameter, a format string).
+parameter, a format string; the sixth asked for one change in a place a reader of the property would not think of first - a command handler,
+a parser or a `.pest` grammar, a formatter, a conversion or `Default` impl, a regular expression, a lazy static - and one pure weakening or
+one-token slip: a dropped check, `<` for `<=`, `&&` for `||`, the wrong one of two similar names, an off-by-one).
 I confirmed every one of the %d changes in a scratch worktree (`tools/seeded.py confirm`: patch applies, crate builds, 140 + 1 tests pass with
 only the baseline UI failure, `demo.sh` exits 1 with the change and 0 without), then ran all 20 checks against each (`git -C /repo apply`,
 `./check Cxx`, `git -C /repo checkout -- .`). They are kept under `seeded/<id>/` (`patch.diff`, the demonstration with its inputs, the
 agent's `notes.md`, `meta.json`) and are part of the self-test catalogue of their property (`S-<id>`).
 
 **First runs: in rounds one and two 30 of 40 were reported by the check of their own property and 10 were not; in round three 7 of 40, in
-round four 6 of 40 and in round five 14 of 40 were not** (%d of %d in total; most of the round-five misses were slips in shared helpers -
-the sort a collector tags a variable with, a conversion impl, a traversal that skips one field - that the check of *another* property already
-caught). Every miss was a
+round four 6 of 40, in round five 14 of 40 and in round six 16 of 40 were not** (%d of %d in total; most of the round-five and round-six
+misses were slips in shared code - the sort a collector tags a variable with, a conversion impl, a printer's precedence or relation table,
+the order of the file arguments - that the check of *another* property already caught: the clause is now shared, i.e. the rule that decides
+it runs under every property it is a necessary condition of; five of the round-six changes were caught by no check at all: the default sort
+of a placeholder declared without one, the status pattern refusing an empty problem name, a grammar that admits one prefix operator where the
+printer writes several, the numeral `1` under unary minus, and a grammar that admits annotations in an order the tree builder does not
+expect). Every miss was a
 gap in a rule, not a limit of the technique, and each was closed by strengthening the rule (never by special-casing the change); after that
 all %d are reported by the check of their own property, %d of them as fail-closed analysis gaps rather than as a precise obligation:
 
